@@ -1,6 +1,677 @@
-"""Rules that need the builder interpreter (A2)."""
+"""Rules that need the builder interpreter (A2): C10, C11.R1/R4, C04.R4, C05.R4/R5, C15.R5, C17.R1."""
+from __future__ import annotations
+
+import ast
+import re
+
+from ..absint import Const, Obj, Tup, vkey
+from ..argtable import by_dest, option_table
+from ..builder import analyse_builder, compatible, dests_in
 from ..core import Unrecognised
+from ..repo import chain, src
+from ..roles import call_rows, concrete_call
+
+# options that only parameterise an element (never switch it on) and the mode flag
+PARAM_DESTS = {"quality_base", "times", "action", "index", "reverse_complement", "pair_adapters", "paired", "pair_filter", "fasta", "interleaved"}
+
+# oracle: the order in the property statement (reference.rst lists the same order)
+MOD_STAGE = {
+    "cut": 1, "cut2": 1,
+    "nextseq_trim": 2,
+    "quality_cutoff": 3, "quality_cutoff2": 3,
+    "adapters": 4, "adapters2": 4,
+    "poly_a": 5,
+    "length": 6, "length2": 6,
+    "trim_n": 7,
+    "length_tag": 8,
+    "strip_suffix": 9,
+    "prefix": 10, "suffix": 10,
+    "rename": 11, "zero_cap": 11,
+}
+MOD_STAGE_NAME = {1: "cut (-u/-U)", 2: "NextSeq trimming", 3: "quality trimming", 4: "adapter trimming", 5: "poly-A trimming", 6: "--length", 7: "--trim-n", 8: "--length-tag", 9: "--strip-suffix", 10: "prefix/suffix", 11: "rename / zero-cap"}
+R1_ONLY = {"cut", "adapters"}
+R2_ONLY = {"cut2", "adapters2", "quality_cutoff2", "length2"}
+
+STEP_STAGE = {
+    "rest_file": 0, "info_file": 0, "wildcard_file": 0,
+    "minimum_length": 1, "too_short_output": 1, "too_short_paired_output": 1,
+    "maximum_length": 2, "too_long_output": 2, "too_long_paired_output": 2,
+    "max_n": 3,
+    "max_expected_errors": 4,
+    "max_average_error_rate": 5,
+    "discard_casava": 6,
+    "discard_trimmed": 7, "discard_untrimmed": 7, "untrimmed_output": 7, "untrimmed_paired_output": 7,
+}
+STEP_STAGE_NAME = {0: "rest/info/wildcard writers", 1: "too short", 2: "too long", 3: "too many N", 4: "too many expected errors", 5: "too high average error rate", 6: "CASAVA", 7: "discard-trimmed/untrimmed/untrimmed-output", 9: "sink"}
+# documented criterion -> (predicate class, the option that carries its threshold / switches it on)
+PREDICATE_OPTION = {
+    "TooShort": {"minimum_length"},
+    "TooLong": {"maximum_length"},
+    "TooManyN": {"max_n"},
+    "TooManyExpectedErrors": {"max_expected_errors"},
+    "TooHighAverageErrorRate": {"max_average_error_rate"},
+    "CasavaFiltered": {"discard_casava"},
+    "IsTrimmed": {"discard_trimmed"},
+    "IsUntrimmed": {"discard_untrimmed", "untrimmed_output", "untrimmed_paired_output"},
+}
+
+_models: dict = {}
+SKIPPED_NOPRED: list = []
+
+
+def model(repo, paired):
+    key = (id(repo), paired)
+    if key not in _models:
+        _models[key] = analyse_builder(repo, paired)
+    return _models[key]
+
+
+def _step_kind(repo, cls_name, _cache={}):
+    """'sink' (consumes on every path), 'filter' (consumes on some), 'writer' (never consumes)"""
+    k = (id(repo), cls_name)
+    if k in _cache:
+        return _cache[k]
+    cls = repo.cls(cls_name)
+    dc, fn = concrete_call(repo, cls_name)
+    if fn is None:
+        raise Unrecognised(f"{cls_name} has no concrete __call__")
+    rows, ps = call_rows(repo, cls, fn)
+    cons = passes = 0
+    for r in rows:
+        if r.exit[0] == "raise":
+            continue
+        v = r.exit[1]
+        if r.exit[0] == "fall" or (isinstance(v, Const) and v.value is None):
+            cons += 1
+        else:
+            passes += 1
+    kind = "sink" if cons and not passes else "writer" if passes and not cons else "filter"
+    _cache[k] = kind
+    return kind
+
+
+def _term_class(value):
+    return getattr(value, "cls", None)
+
+
+def _inner_term_classes(key: str):
+    return re.findall(r"\b([A-Z][A-Za-z0-9]+)\(", key)
+
+
+# ---------------------------------------------------------------------------
+# C10
+# ---------------------------------------------------------------------------
+def c10(repo, report, tier):
+    report.rule("C10.R1", "every two slots of the modifiers list that can occur together are in the documented stage order; the stage of a slot comes from the option that switches it on",
+                "two modifications are applied in the wrong order for reads on which they interact")
+    report.rule("C10.R2", "routing: lower-case options build (X, None), their upper-case counterparts (None, X), shared options act on both mates with two distinct objects; single-end builds plain elements",
+                "an option acts on the wrong mate, on both, or the two mates share one stateful modifier")
+    report.rule("C10.R4", "the builder and its helpers read options only through the parsed namespace (never the raw argument vector); the append-type options are exactly adapters, adapters2, cut, cut2, strip_suffix",
+                "the order of options on the command line would change the order of modifications")
+    opts = option_table(repo)
+    dests = by_dest(opts)
+    report.saw(call_sites=len(opts))
+    for paired in (False, True):
+        m = model(repo, paired)
+        report.saw(function="cli.make_pipeline_from_args", file="src/cutadapt/cli.py", paths=sum(len(b.rows) for b in m.blocks))
+        _c10_r1(repo, report, m, dests)
+        _c10_r2(repo, report, m)
+    _c10_r4(repo, report, opts)
+
+
+def _mod_stage(slot):
+    sd = slot.switch_dests(PARAM_DESTS)
+    if not sd:
+        raise Unrecognised(f"no switching option found for modifier slot {slot.key}", f"src/cutadapt/cli.py:{getattr(slot.node, 'lineno', 0)}")
+    unknown = sorted(d for d in sd if d not in MOD_STAGE)
+    if unknown:
+        raise Unrecognised(f"modifier slot {slot.key} is switched by option(s) {unknown} that the documented order does not mention", f"src/cutadapt/cli.py:{getattr(slot.node, 'lineno', 0)}")
+    stages = {MOD_STAGE[d] for d in sd}
+    if len(stages) != 1:
+        raise Unrecognised(f"modifier slot {slot.key} is switched by options of different stages {sorted(sd)}")
+    return stages.pop(), sd
+
+
+def _c10_r1(repo, report, m, dests):
+    mode = "paired" if m.paired else "single"
+    entries = []
+    for bi, ri, pos, val, s in m.slots("modifiers"):
+        try:
+            st, sd = _mod_stage(s)
+        except Unrecognised as u:
+            report.unrecognised("C10.R1", f"{mode}:{s.key[:80]}", u.what, u.loc)
+            return
+        entries.append((bi, ri, pos, val, s, st, sd))
+    report.floor("C10.R1", f"modifier slots ({mode})", len({(e[0], e[4].key) for e in entries}), 14)
+    # group identical slots for reporting
+    conflicts = {}
+    checked = {}
+    n_pairs = 0
+    by_block = {}
+    for e in entries:
+        by_block.setdefault(e[0], []).append(e)
+    blocks = sorted(by_block)
+    for i, bi in enumerate(blocks):
+        # same block: same row, by position
+        rows = {}
+        for e in by_block[bi]:
+            rows.setdefault(e[1], []).append(e)
+        for ri, es in rows.items():
+            es.sort(key=lambda e: e[2])
+            for x in range(len(es)):
+                for y in range(x + 1, len(es)):
+                    n_pairs += 1
+                    a, b = es[x], es[y]
+                    if a[5] > b[5]:
+                        conflicts.setdefault(_slot_id(a), []).append(_conflict(a, b))
+        for bj in blocks[i + 1:]:
+            amax = max(e[5] for e in by_block[bi])
+            bmin = min(e[5] for e in by_block[bj])
+            if amax <= bmin:
+                n_pairs += len(by_block[bi]) * len(by_block[bj])
+                continue
+            for a in by_block[bi]:
+                for b in by_block[bj]:
+                    if a[5] > b[5] and compatible(a[3], b[3]):
+                        conflicts.setdefault(_slot_id(a), []).append(_conflict(a, b))
+                    n_pairs += 1
+    seen = set()
+    for e in entries:
+        sid = _slot_id(e)
+        if sid in seen:
+            continue
+        seen.add(sid)
+        c = conflicts.get(sid, [])
+        report.ob("C10.R1", f"{mode}:{sid}", not c, facts={"term": e[4].key[:160], "switch": sorted(e[6]), "stage": MOD_STAGE_NAME[e[5]], "built_at": f"cli.py:{getattr(e[4].node, 'lineno', 0)} in {e[4].fn}", "conflicts": c[:3]},
+                  expected="no slot of a later stage precedes it", loc=f"src/cutadapt/cli.py:{getattr(e[4].node, 'lineno', 0)}", cases=max(1, n_pairs // max(1, len(entries))),
+                  why=(f"{c[0]['this']} (stage {c[0]['this_stage']}) is put on the list before {c[0]['other']} (stage {c[0]['other_stage']})" if c else ""))
+    # -u / -U values keep list order
+    for e in entries:
+        s = e[4]
+        if e[6] & {"cut", "cut2"}:
+            d = "cut" if "cut" in e[6] else "cut2"
+            ok = f"item(args.{d})" in s.key and s.loop
+            report.ob("C10.R1", f"{mode}:{d} values in given order", ok, facts={"term": s.key}, expected=f"one cutter per element of args.{d}, iterated in list order", loc=f"src/cutadapt/cli.py:{getattr(s.node, 'lineno', 0)}")
+
+
+def _slot_id(e):
+    s = e[4]
+    cls = _inner_term_classes(s.key)
+    return f"{'+'.join(sorted(e[6]))}[{cls[0] if cls else s.key[:30]}@{s.fn}]"
+
+
+def _conflict(a, b):
+    return {"this": a[4].key[:90], "this_stage": MOD_STAGE_NAME[a[5]], "other": b[4].key[:90], "other_stage": MOD_STAGE_NAME[b[5]], "other_built_at": f"cli.py:{getattr(b[4].node, 'lineno', 0)}"}
+
+
+def _c10_r2(repo, report, m):
+    mode = "paired" if m.paired else "single"
+    seen = set()
+    for bi, ri, pos, val, s in m.slots("modifiers"):
+        sd = s.switch_dests(PARAM_DESTS)
+        sid = (tuple(sorted(sd)), s.key)
+        if sid in seen:
+            continue
+        seen.add(sid)
+        v = s.value
+        problems = []
+        if not m.paired:
+            if isinstance(v, Tup):
+                problems.append("single-end pipeline receives a pair of modifiers")
+            elif _term_class(v) is None or not repo.is_subclass(_term_class(v), "SingleEndModifier"):
+                problems.append(f"not a SingleEndModifier: {s.key[:60]}")
+            if dests_in(s.key) & R2_ONLY:
+                problems.append("built from an R2-only option in single-end mode")
+        else:
+            if isinstance(v, Tup):
+                if len(v.items) != 2:
+                    problems.append("not a pair")
+                else:
+                    a, b = v.items
+                    an = isinstance(a, Const) and a.value is None
+                    bn = isinstance(b, Const) and b.value is None
+                    ad, bd = dests_in(vkey(a)) - PARAM_DESTS, dests_in(vkey(b)) - PARAM_DESTS
+                    if a is b and not an:
+                        problems.append("both mates share one modifier object (its counters would be added twice)")
+                    if ad & R2_ONLY:
+                        problems.append(f"R1 position built from R2-only option(s) {sorted(ad & R2_ONLY)}")
+                    if bd & R1_ONLY:
+                        problems.append(f"R2 position built from R1-only option(s) {sorted(bd & R1_ONLY)}")
+                    # which sides must be present
+                    r1_only = bool(sd) and sd <= R1_ONLY
+                    r2_only = bool(sd) and sd <= R2_ONLY
+                    if r1_only and (an or not bn):
+                        problems.append("a lower-case (R1-only) option must give (X, None)")
+                    if r2_only and (bn or not an):
+                        problems.append("an upper-case (R2-only) option must give (None, X)")
+                    if not r1_only and not r2_only:
+                        # shared option (possibly with its R2 override)
+                        if bn:
+                            # allowed only when the R2 override option was given (e.g. -Q 0 switches R2 off)
+                            overrides = {d for d in R2_ONLY if any(d in k for k in val)}
+                            given = [k for k, x in val.items() if any(f"args.{d}" in k for d in R2_ONLY) and k.startswith("isnone:") and x is False]
+                            if not given:
+                                problems.append("a shared option leaves R2 unmodified although no R2 override was given")
+                        if an and not (sd & R2_ONLY):
+                            problems.append("a shared option leaves R1 unmodified")
+                        if not an and not bn:
+                            # the R2 element is built from the R2 override if one switches the slot, else from the same option
+                            r2over = sd & R2_ONLY
+                            if r2over and not (bd & r2over):
+                                problems.append(f"R2 element ignores its override option {sorted(r2over)}")
+                            if not r2over and (bd - ad):
+                                problems.append(f"R2 element built from other options {sorted(bd - ad)} than the R1 element")
+            else:
+                cls = _term_class(v)
+                if cls is None or not repo.is_subclass(cls, "PairedEndModifier"):
+                    problems.append(f"paired pipeline receives a non-pair element that is not a PairedEndModifier: {s.key[:60]}")
+                else:
+                    # constructor positions: first argument R1, second R2
+                    args = _split_args(s.key)
+                    if len(args) >= 2:
+                        if dests_in(args[0]) & R2_ONLY:
+                            problems.append("first constructor argument built from R2-only option")
+                        if dests_in(args[1]) & R1_ONLY:
+                            problems.append("second constructor argument built from R1-only option")
+        report.ob("C10.R2", f"{mode}:{'+'.join(sorted(sd))}:{s.key[:70]}", not problems, facts={"term": s.key[:200], "switch": sorted(sd), "problems": problems},
+                  expected="R1-only -> (X, None); R2-only -> (None, X); shared -> two distinct objects, R2 from its override if given", loc=f"src/cutadapt/cli.py:{getattr(s.node, 'lineno', 0)}",
+                  why="; ".join(problems))
+
+
+def _split_args(key: str):
+    i = key.find("(")
+    if i < 0 or not key.endswith(")"):
+        return []
+    inner = key[i + 1:-1]
+    out, depth, cur = [], 0, ""
+    for ch in inner:
+        if ch in "([{":
+            depth += 1
+        elif ch in ")]}":
+            depth -= 1
+        if ch == "," and depth == 0:
+            out.append(cur.strip())
+            cur = ""
+        else:
+            cur += ch
+    if cur.strip():
+        out.append(cur.strip())
+    return out
+
+
+def _c10_r4(repo, report, opts):
+    appends = sorted({o.dest for o in opts if o.action == "append"})
+    report.ob("C10.R4", "append-type options", appends == ["adapters", "adapters2", "cut", "cut2", "strip_suffix"], facts={"append_dests": appends},
+              expected=["adapters", "adapters2", "cut", "cut2", "strip_suffix"], loc="src/cutadapt/cli.py")
+    fns = ["make_pipeline_from_args"] + [n for n, f in repo.funcs("cli").items() if any(isinstance(x, (ast.Yield, ast.YieldFrom)) for x in ast.walk(f))]
+    bad = []
+    for name in fns:
+        f = repo.func("cli", name)
+        for n in ast.walk(f):
+            ch = chain(n) if isinstance(n, (ast.Attribute, ast.Name)) else None
+            if ch in ("sys.argv", "cmdlineargs", "leftover_args"):
+                bad.append(f"{name}: {ch} at line {n.lineno}")
+    report.ob("C10.R4", "builder reads only the namespace", not bad, facts={"functions": fns, "raw_argument_uses": bad}, expected="no use of sys.argv / cmdlineargs in the builder", loc="src/cutadapt/cli.py")
+    report.floor("C10.R4", "builder helper generators", len(fns) - 1, 5)
+
+
+# ---------------------------------------------------------------------------
+# steps: C11.R1 / R4, C04.R4, C15.R5, C17.R1
+# ---------------------------------------------------------------------------
+def _step_entries(repo, m):
+    out = []
+    for bi, ri, pos, val, s in m.slots("steps"):
+        classes = _inner_term_classes(s.key)
+        outer = _term_class(s.value)
+        if outer is None:
+            raise Unrecognised(f"steps receives a non-constructor value {s.key[:80]}", f"src/cutadapt/cli.py:{getattr(s.node, 'lineno', 0)}")
+        inner = outer
+        if outer == "PairedSingleEndStep" and len(classes) > 1:
+            inner = classes[1]
+        kind = _step_kind(repo, inner)
+        preds = [c for c in classes if c in repo.classes and repo.is_subclass(c, "Predicate")]
+        if kind == "filter" and not preds and repo.is_subclass(outer, "HasFilterStatistics") and not repo.is_subclass(outer, "HasStatistics"):
+            # a filter without any predicate: only reachable if parse_lengths returned no bound at all,
+            # which it rejects (verified by C05.R5 'parse_lengths rejects empty bounds')
+            SKIPPED_NOPRED.append(s.key)
+            continue
+        if kind == "sink":
+            stage = 9
+            sd = s.dests()
+        elif kind == "writer":
+            sd = s.switch_dests(PARAM_DESTS | {"output", "paired_output"})
+            stage = None
+        else:
+            sd = s.switch_dests(PARAM_DESTS | {"output", "paired_output"})
+            stage = None
+        if stage is None:
+            unknown = sorted(d for d in sd if d not in STEP_STAGE)
+            if unknown or not sd:
+                raise Unrecognised(f"step slot {s.key[:80]} is switched by option(s) {unknown or 'none'} that the documented filter order does not mention", f"src/cutadapt/cli.py:{getattr(s.node, 'lineno', 0)}")
+            stages = {STEP_STAGE[d] for d in sd}
+            if len(stages) != 1:
+                raise Unrecognised(f"step slot {s.key[:80]} mixes options of different filter stages {sorted(sd)}")
+            stage = stages.pop()
+        out.append({"bi": bi, "ri": ri, "pos": pos, "val": val, "slot": s, "stage": stage, "kind": kind, "sd": sd, "preds": preds, "inner": inner, "outer": outer})
+    return out
+
+
+def c11_builder(repo, report, tier):
+    report.rule("C11.R1", "steps are appended in the order: writers, too short, too long, too many N, expected errors, average error rate, CASAVA, at most one trimmed/untrimmed filter, sink",
+                "a read that fails two criteria is attributed/redirected to the wrong one, or a filter runs after the output step")
+    report.rule("C11.R4", "each filter is built from its own option: predicate class <-> option carrying its threshold, redirect path <-> its own filter; redirect without bound is rejected; the three trimmed/untrimmed options exclude each other",
+                "a threshold or a redirect file is wired to the wrong criterion")
+    for paired in (False, True):
+        mode = "paired" if paired else "single"
+        m = model(repo, paired)
+        try:
+            entries = _step_entries(repo, m)
+        except Unrecognised as u:
+            report.unrecognised("C11.R1", f"{mode}:steps", u.what, u.loc)
+            continue
+        report.saw(function="cli.make_pipeline_from_args", file="src/cutadapt/cli.py", paths=sum(len(b.rows) for b in m.blocks))
+        report.floor("C11.R1", f"step slot kinds ({mode})", len({(e["stage"], e["inner"]) for e in entries}), 12)
+        # order
+        conflicts = {}
+        by_block = {}
+        for e in entries:
+            by_block.setdefault(e["bi"], []).append(e)
+        blocks = sorted(by_block)
+        npairs = 0
+        for i, bi in enumerate(blocks):
+            rows = {}
+            for e in by_block[bi]:
+                rows.setdefault(e["ri"], []).append(e)
+            for ri, es in rows.items():
+                es.sort(key=lambda e: e["pos"])
+                for x in range(len(es)):
+                    for y in range(x + 1, len(es)):
+                        npairs += 1
+                        if es[x]["stage"] > es[y]["stage"] or (es[x]["stage"] == 9) or (es[x]["stage"] == 7 and es[y]["stage"] == 7):
+                            conflicts.setdefault(_sid(es[x]), []).append(_sconf(es[x], es[y]))
+            for bj in blocks[i + 1:]:
+                for a in by_block[bi]:
+                    for b in by_block[bj]:
+                        npairs += 1
+                        if (a["stage"] > b["stage"] or a["stage"] == 9 or (a["stage"] == 7 and b["stage"] == 7)) and compatible(a["val"], b["val"]):
+                            conflicts.setdefault(_sid(a), []).append(_sconf(a, b))
+        seen = set()
+        for e in entries:
+            sid = _sid(e)
+            if sid in seen:
+                continue
+            seen.add(sid)
+            c = conflicts.get(sid, [])
+            report.ob("C11.R1", f"{mode}:{sid}", not c, facts={"term": e["slot"].key[:160], "stage": STEP_STAGE_NAME[e["stage"]], "kind": e["kind"], "conflicts": c[:3]},
+                      expected="no step of a later stage (and no second trimmed/untrimmed filter, nothing after a sink) precedes/follows it", loc=f"src/cutadapt/cli.py:{getattr(e['slot'].node, 'lineno', 0)}",
+                      cases=max(1, npairs // max(1, len(entries))), why=(f"{c[0]['this']} [{c[0]['this_stage']}] precedes {c[0]['other']} [{c[0]['other_stage']}]" if c else ""))
+        # R4: predicate <-> option, redirect <-> filter
+        seen = set()
+        for e in entries:
+            if e["kind"] != "filter":
+                continue
+            s = e["slot"]
+            key = (s.key,)
+            if key in seen:
+                continue
+            seen.add(key)
+            problems = []
+            term_d = s.term_dests - PARAM_DESTS
+            guard_d = s.guard_dests
+            for p in set(e["preds"]):
+                want = PREDICATE_OPTION.get(p)
+                if want is None:
+                    report.unrecognised("C11.R4", f"{mode}:{p}", f"predicate class {p} has no documented criterion")
+                    continue
+                # the predicate's own argument
+                for pm in re.finditer(re.escape(p) + r"\(([^()]*(?:\([^()]*\)[^()]*)*)\)", s.key):
+                    argd = dests_in(pm.group(1))
+                    if argd and not argd <= want:
+                        problems.append(f"{p} is built from option(s) {sorted(argd)}, expected {sorted(want)}")
+                    if not argd and not ((term_d | guard_d) & want):
+                        problems.append(f"{p} is not switched by {sorted(want)}")
+            # redirect paths
+            for d in term_d:
+                if d in ("too_short_output", "too_short_paired_output") and "TooShort" not in e["preds"]:
+                    problems.append(f"{d} redirects reads of a {e['preds']} filter")
+                if d in ("too_long_output", "too_long_paired_output") and "TooLong" not in e["preds"]:
+                    problems.append(f"{d} redirects reads of a {e['preds']} filter")
+                if d in ("untrimmed_output", "untrimmed_paired_output") and "IsUntrimmed" not in e["preds"]:
+                    problems.append(f"{d} redirects reads of a {e['preds']} filter")
+            # writer argument order (path1, path2)
+            w = re.search(r"open_record_writer\(([^)]*)\)", s.key)
+            if w:
+                wargs = [a.strip() for a in w.group(1).split(",")]
+                paths = [a for a in wargs if a.startswith("args.")]
+                if len(paths) == 2 and not (paths[1].endswith("paired_output") and not paths[0].endswith("paired_output")):
+                    problems.append(f"redirect writer receives the paths in the order {paths}")
+                if len(paths) == 2 and paths[0].replace("_output", "") != paths[1].replace("_paired_output", ""):
+                    problems.append(f"redirect writer mixes files of different filters {paths}")
+                if len(paths) == 1 and paired and "interleaved=True" not in s.key:
+                    problems.append("paired redirect to a single file is not interleaved")
+            report.ob("C11.R4", f"{mode}:{s.key[:100]}", not problems, facts={"term": s.key[:240], "problems": problems}, expected="predicate built from its own option; redirect file attached to its own filter, (R1 path, R2 path) in order",
+                      loc=f"src/cutadapt/cli.py:{getattr(s.node, 'lineno', 0)}", why="; ".join(problems))
+        # redirect without bound / mutual exclusion are errors
+        errs = [src(r.exit[1]) if False else (r.exit[1].value if isinstance(r.exit[1], Const) else None) for st, r in m.errors]
+        n_cle = sum(1 for e in errs if e == "CommandLineError")
+        report.ob("C11.R4", f"{mode}:rejected configurations", n_cle >= 6, facts={"raising_paths": len(m.errors), "CommandLineError": n_cle}, expected="the builder rejects invalid combinations with CommandLineError", loc="src/cutadapt/cli.py")
+        _redirect_without_bound(repo, report, m, mode)
+
+
+def _sid(e):
+    return f"{e['outer']}<{'+'.join(sorted(set(e['preds']))) or e['inner']}>[{'+'.join(sorted(d for d in e['sd'] if d in STEP_STAGE)) or 'sink'}]"
+
+
+def _sconf(a, b):
+    return {"this": a["slot"].key[:80], "this_stage": STEP_STAGE_NAME[a["stage"]], "other": b["slot"].key[:80], "other_stage": STEP_STAGE_NAME[b["stage"]], "other_built_at": f"cli.py:{getattr(b['slot'].node, 'lineno', 0)}"}
+
+
+def _redirect_without_bound(repo, report, m, mode):
+    # in the block that builds the length filters: every row where the bound is None but a path is given must raise
+    found = 0
+    for st, r in m.errors:
+        val = r.valuation
+        for bound, paths in (("minimum_length", ("too_short_output", "too_short_paired_output")), ("maximum_length", ("too_long_output", "too_long_paired_output"))):
+            if val.get(f"isnone:args.{bound}") is True and any(val.get(f"truthy:args.{p}") is True for p in paths):
+                found += 1
+    bad = []
+    for b in m.blocks:
+        for val, slots, ex, row in b.rows:
+            for bound, paths in (("minimum_length", ("too_short_output", "too_short_paired_output")), ("maximum_length", ("too_long_output", "too_long_paired_output"))):
+                if val.get(f"isnone:args.{bound}") is True and any(val.get(f"truthy:args.{p}") is True for p in paths):
+                    bad.append({k: v for k, v in val.items() if bound in k or any(p in k for p in paths)})
+    report.ob("C11.R4", f"{mode}:redirect without bound is rejected", found >= 2 and not bad, facts={"raising_paths": found, "accepted": bad[:3]},
+              expected="--too-short-output without -m (and --too-long-output without -M) raises on every path", loc="src/cutadapt/cli.py")
+    # mutual exclusion of the three trimmed/untrimmed options: no accepted row has two stage-7 slots (checked in R1) and the guard raises
+    fn = repo.func("cli", "make_pipeline_from_args")
+    excl = [n for n in ast.walk(fn) if isinstance(n, ast.If) and isinstance(n.test, ast.Compare) and "discard_trimmed" in src(n.test) and "discard_untrimmed" in src(n.test) and "untrimmed_output" in src(n.test)]
+    ok = bool(excl) and any(isinstance(x, ast.Raise) for x in excl[0].body) and isinstance(excl[0].test.ops[0], ast.Gt) and src(excl[0].test.comparators[0]) == "1"
+    report.ob("C11.R4", f"{mode}:trimmed/untrimmed options exclude each other", ok, facts={"test": src(excl[0].test)[:200] if excl else None}, expected="int(a) + int(b) + int(c) > 1 raises", loc=repo.loc(excl[0]) if excl else "src/cutadapt/cli.py")
 
 
 def c04_r4_last_step_is_sink(repo, report, tier):
-    raise Unrecognised("builder interpreter not implemented yet")
+    for paired in (False, True):
+        mode = "paired" if paired else "single"
+        m = model(repo, paired)
+        entries = _step_entries(repo, m)
+        sink_blocks = sorted({e["bi"] for e in entries if e["kind"] == "sink"})
+        if len(sink_blocks) != 1:
+            report.ob("C04.R4", f"{mode}:sink block", False, facts={"blocks_with_sinks": sink_blocks}, expected="sinks are appended in exactly one builder statement")
+            continue
+        sb = sink_blocks[0]
+        blk = m.blocks[sb]
+        bad = []
+        for ri, (val, slots, ex, row) in enumerate(blk.rows):
+            ss = [s for s in slots if s.list == "steps"]
+            es = [e for e in entries if e["bi"] == sb and e["ri"] == ri]
+            es.sort(key=lambda e: e["pos"])
+            nsinks = sum(1 for e in es if e["kind"] == "sink")
+            if nsinks != 1 or not es or es[-1]["kind"] != "sink":
+                bad.append({"guard": {k: str(v) for k, v in list(val.items())[:8]}, "steps": [e["slot"].key[:60] for e in es]})
+        later = [e for e in entries if e["bi"] > sb]
+        report.ob("C04.R4", f"{mode}:every path ends with exactly one sink", not bad and not later, facts={"paths": len(blk.rows), "bad": bad[:3], "steps_after_sink_block": [e["slot"].key[:60] for e in later[:3]]},
+                  expected="each accepted configuration appends exactly one consuming sink, as the last step", loc=repo.loc(blk.stmt), cases=len(blk.rows),
+                  why="a configuration exists whose pipeline does not end in a consuming sink" if bad else "")
+        report.saw(paths=len(blk.rows))
+
+
+def c15_r5(repo, report, tier):
+    """demultiplexer is the last step and excludes the plain sink and --discard-trimmed"""
+    for paired in (False, True):
+        mode = "paired" if paired else "single"
+        m = model(repo, paired)
+        entries = _step_entries(repo, m)
+        demux = [e for e in entries if "Demultiplexer" in e["inner"]]
+        report.floor("C15.R5", f"demultiplexer slots ({mode})", len({e["inner"] for e in demux}), 2 if True else 1)
+        bad = []
+        for e in demux:
+            same_row = [x for x in entries if x["bi"] == e["bi"] and x["ri"] == e["ri"] and x is not e]
+            if any(x["kind"] == "sink" or x["stage"] == 7 for x in same_row):
+                bad.append({"demux": e["slot"].key[:60], "with": [x["slot"].key[:50] for x in same_row]})
+            if e["val"].get("truthy:args.discard_trimmed") is True:
+                bad.append({"demux": e["slot"].key[:60], "problem": "accepted together with --discard-trimmed"})
+            if (e["inner"] == "Demultiplexer") == paired or (e["inner"] in ("PairedDemultiplexer", "CombinatorialDemultiplexer")) != paired:
+                bad.append({"demux": e["slot"].key[:60], "problem": f"{e['inner']} used in {mode} mode"})
+        report.ob("C15.R5", f"{mode}:demultiplexer is the only consuming step on its paths", not bad, facts={"demultiplexers": sorted({e['inner'] for e in demux}), "problems": bad[:3]},
+                  expected="a demultiplexer replaces the plain sink and the trimmed/untrimmed filters; --discard-trimmed is rejected", loc="src/cutadapt/cli.py")
+        # constructor wiring
+        for e in demux:
+            k = e["slot"].key
+            probs = []
+            if e["inner"] == "CombinatorialDemultiplexer":
+                a = _split_args(k)
+                if len(a) < 2 or "adapters2" in a[0] or "adapters2" not in a[1]:
+                    probs.append("adapter name lists of R1 and R2 in the wrong positions")
+                if "template1=args.output" not in k or "template2=args.paired_output" not in k:
+                    probs.append("templates swapped")
+            elif e["inner"] == "PairedDemultiplexer":
+                if "template1=args.output" not in k or "template2=args.paired_output" not in k:
+                    probs.append("templates swapped")
+                if "untrimmed_output=args.untrimmed_output" not in k or "untrimmed_paired_output=args.untrimmed_paired_output" not in k:
+                    probs.append("untrimmed paths swapped")
+                if "adapters2" in _split_args(k)[0]:
+                    probs.append("routes by R2 adapter names")
+            else:
+                if "template=args.output" not in k or "untrimmed_output=args.untrimmed_output" not in k:
+                    probs.append("template/untrimmed path wiring")
+            if "discard_untrimmed=args.discard_untrimmed" not in k:
+                probs.append("discard_untrimmed not taken from --discard-untrimmed")
+            report.ob("C15.R5", f"{mode}:{e['inner']} wiring", not probs, facts={"term": k[:300], "problems": probs}, expected="names of R1 (and R2) adapters, -o/-p templates, untrimmed paths and --discard-untrimmed in their own parameters", loc=f"src/cutadapt/cli.py:{getattr(e['slot'].node, 'lineno', 0)}")
+
+
+def c17_r1_writer_first(repo, report, tier):
+    for paired in (False, True):
+        mode = "paired" if paired else "single"
+        m = model(repo, paired)
+        entries = _step_entries(repo, m)
+        info = [e for e in entries if e["inner"] == "InfoFileWriter"]
+        if not info:
+            report.unrecognised("C17.R1", f"{mode}:InfoFileWriter slot", "no InfoFileWriter slot found in the builder")
+            continue
+        bad = []
+        for e in info:
+            for x in entries:
+                if x["kind"] in ("filter", "sink") and (x["bi"] < e["bi"] or (x["bi"] == e["bi"] and x["ri"] == e["ri"] and x["pos"] < e["pos"])) and compatible(x["val"], e["val"]):
+                    bad.append(x["slot"].key[:70])
+            if "args.info_file" not in e["slot"].key:
+                bad.append("info writer not opened on --info-file")
+            if paired and e["outer"] != "PairedSingleEndStep":
+                bad.append("paired mode: info writer not wrapped for R1")
+        report.ob("C17.R1", f"{mode}:info writer precedes every consuming step", not bad, facts={"preceding_consumers": bad[:3]}, expected="the info-file writer is appended before any filter or sink", loc="src/cutadapt/cli.py")
+
+
+# ---------------------------------------------------------------------------
+# C05.R4 / R5 (paired builder facts)
+# ---------------------------------------------------------------------------
+def c05_r4_override(repo, report, tier):
+    m = model(repo, True)
+    entries = _step_entries(repo, m)
+    filt = [e for e in entries if e["outer"] == "PairedEndFilter"]
+    report.floor("C05.R4", "PairedEndFilter slots", len({e["slot"].key for e in filt}), 10)
+    plain_bad, over_bad = [], []
+    n_over = n_plain = 0
+    for e in filt:
+        k = e["slot"].key
+        mm = re.search(r"pair_filter_mode=([^,)]+)", k)
+        mode = mm.group(1) if mm else None
+        val = e["val"]
+        if "IsUntrimmed" in e["preds"]:
+            # override condition from the guard
+            one_empty = (val.get("truthy:adapters2") is False) or (val.get("truthy:adapters") is False)
+            used = any(val.get(f"truthy:args.{d}") is True for d in ("discard_untrimmed", "untrimmed_output", "untrimmed_paired_output"))
+            decided = ("truthy:adapters2" in val) and (val.get("truthy:adapters2") is False or "truthy:adapters" in val)
+            expect_both = one_empty and used
+            if not decided:
+                over_bad.append({"term": k[:80], "problem": "mode does not depend on which adapter lists are empty", "guard": _g(val)})
+            elif expect_both != (mode == "'both'"):
+                over_bad.append({"term": k[:80], "mode": mode, "expected": "'both'" if expect_both else "the configured mode", "guard": _g(val)})
+            elif not expect_both and mode != "phi:pair_filter_mode":
+                over_bad.append({"term": k[:80], "mode": mode, "expected": "the configured mode", "guard": _g(val)})
+            n_over += 1
+        else:
+            n_plain += 1
+            if mode != "phi:pair_filter_mode":
+                plain_bad.append({"term": k[:100], "mode": mode})
+    report.ob("C05.R4", "untrimmed filters: 'both' iff adapters on one side only", not over_bad and n_over >= 4, facts={"slots": n_over, "problems": over_bad[:3]},
+              expected="pair_filter_mode='both' iff (adapters or adapters2 empty) and an untrimmed option is used; otherwise the configured mode", loc="src/cutadapt/cli.py", cases=n_over,
+              why=str(over_bad[0]) if over_bad else "")
+    report.ob("C05.R4", "all other pair filters receive the configured mode", not plain_bad and n_plain >= 6, facts={"slots": n_plain, "problems": plain_bad[:3]},
+              expected="pair_filter_mode=<the --pair-filter value, default any>", loc="src/cutadapt/cli.py", cases=n_plain, why=str(plain_bad[0]) if plain_bad else "")
+    # definition of the configured mode
+    fn = repo.func("cli", "make_pipeline_from_args")
+    defs = [n for n in ast.walk(fn) if isinstance(n, ast.Assign) and chain(n.targets[0]) == "pair_filter_mode" and not isinstance(n.value, ast.Constant)]
+    ok = len(defs) == 1 and isinstance(defs[0].value, ast.IfExp)
+    if ok:
+        from ..absint import explore
+        rows = explore(repo, [defs[0]], {"args": Obj("args", nonnull=True)})
+        got = {r.valuation.get("isnone:args.pair_filter"): vkey(r.env["pair_filter_mode"]) for r in rows}
+        ok = got == {True: "'any'", False: "args.pair_filter"}
+    else:
+        got = None
+    report.ob("C05.R4", "configured mode = --pair-filter, default any", ok, facts={"table": {str(k): v for k, v in (got or {}).items()}}, expected={"None": "'any'", "given": "args.pair_filter"}, loc=repo.loc(defs[0]) if defs else "src/cutadapt/cli.py")
+
+
+def _g(val):
+    return {k: str(v) for k, v in val.items() if any(x in k for x in ("adapters", "untrimmed", "discard"))}
+
+
+def c05_r5_lengths(repo, report, tier):
+    """LEN:LEN2 -> predicates: missing side gives None; a single value in paired mode is duplicated."""
+    m = model(repo, True)
+    entries = [e for e in _step_entries(repo, m) if e["outer"] == "PairedEndFilter" and set(e["preds"]) & {"TooShort", "TooLong"}]
+    bad = []
+    n = 0
+    for e in entries:
+        val = e["val"]
+        p = "TooShort" if "TooShort" in e["preds"] else "TooLong"
+        opt = "minimum_length" if p == "TooShort" else "maximum_length"
+        L = f"parse_lengths(args.{opt})"
+        a = _split_args(e["slot"].key)
+        if len(a) < 2:
+            bad.append({"term": e["slot"].key[:80], "problem": "constructor arity"})
+            continue
+        if val.get(f"sign:len({L})-1") == -1 or val.get(f"sign:len({L})-2") == 1:
+            continue  # parse_lengths returns one or two values (verified below)
+        one = val.get(f"sign:len({L})-1") == 0 or val.get(f"sign:len({L})-2") == -1
+        two = val.get(f"sign:len({L})-2") == 0
+        n += 1
+        if one:
+            exp = (f"{p}({L}[0])", f"{p}({L}[0])") if val.get(f"isnone:{L}[0]") is False else None
+        elif two:
+            exp = (f"{p}({L}[0])" if val.get(f"isnone:{L}[0]") is False else "None", f"{p}({L}[1])" if val.get(f"isnone:{L}[1]") is False else "None")
+        else:
+            exp = None
+        if exp is not None and (a[0], a[1]) != exp:
+            bad.append({"term": e["slot"].key[:120], "expected": exp, "guard": {k: str(v) for k, v in val.items() if L in k}})
+    report.ob("C05.R5", "LEN:LEN2 bounds reach the right mate", not bad and n >= 6, facts={"slots": n, "problems": bad[:3]},
+              expected="one value -> both mates; LEN: -> R1 only; :LEN2 -> R2 only; LEN:LEN2 -> (R1, R2)", loc="src/cutadapt/cli.py", cases=n, why=str(bad[0]) if bad else "")
+    # parse_lengths itself: field i -> position i
+    fn = repo.func("cli", "parse_lengths")
+    comp = [n for n in ast.walk(fn) if isinstance(n, ast.GeneratorExp)]
+    ok = bool(comp) and src(comp[0].generators[0].iter) == "fields" and any(isinstance(x, ast.Call) and src(x.func) == "s.split" and src(x.args[0]) == "':'" for x in ast.walk(fn))
+    raises = [n for n in ast.walk(fn) if isinstance(n, ast.If) and any(isinstance(x, ast.Raise) for x in n.body)]
+    tests = [src(n.test) for n in raises]
+    ok_len = any(t.replace(" ", "") in ("len(fields)notin(1,2)", "notlen(fields)in(1,2)") for t in tests)
+    ok_none = any("values[0] is None" in t and "values[1] is None" in t for t in tests)
+    report.ob("C05.R5", "parse_lengths rejects empty bounds", ok_len and ok_none, facts={"guards": tests}, expected="more than one colon raises; ':' without any number raises (so a pair filter always has at least one predicate)", loc=repo.loc(fn))
+    report.ob("C05.R5", "parse_lengths keeps field order", ok, facts={"generator": src(comp[0])[:120] if comp else None}, expected="values = tuple(int(f) if f != '' else None for f in s.split(':'))", loc=repo.loc(fn))
